@@ -161,7 +161,7 @@ fn recheck(case: &Value) -> Vec<Violation> {
         s.set(Setting::IgnoreErrors);
     }
     let Ok(cmd) = build_valid(&s) else { return vec![] };
-    let (_, bad) = one(&cmd, &s, &argv, ignoring);
+    let (_, bad) = one(&cmd, &s, &argv, ignoring || s.has(Setting::IgnoreErrors));
     bad.into_iter()
         .map(|(c, w)| Violation { cause: c, order: (0, 0), what: w, case: case.clone() })
         .collect()
@@ -284,7 +284,9 @@ fn main() {
                     (&cmd, &b.spec)
                 };
                 journal.begin(tid, bi as u64, idx * 2 + ignoring as u64);
-                let (label, bad) = one(c, sp, &argv, ignoring);
+                // error-ignoring may also be in effect through the configuration itself (switched
+                // on inside `Command::defer`)
+                let (label, bad) = one(c, sp, &argv, ignoring || sp.has(Setting::IgnoreErrors));
                 journal.end(tid);
                 h.evaluations += 1;
                 h.states += 1;
